@@ -376,6 +376,10 @@ func genExtracted(b *strings.Builder, root, authp, httpio *pkg) {
 	w("(* backoff.next compares with maxDelay in the float domain before converting to time.Duration *)")
 	w("Definition backoff_clamps_before_convert : bool := %s.", coqBool(backoffClampFirst(root)))
 	w("Definition backoff_constants : list string := %s.", strList(backoffConsts(root)))
+	w("(* lazyWriter.Write gives up when the acquisition attempt returned without a writer (a `case <-failed` arm) *)")
+	w("Definition lazywriter_has_failed_arm : bool := %s.", coqBool(lazyWriterFailedArm(root)))
+	w("(* handleCall derives every handler context from the connection context and registers the cancel function only for id-bearing calls *)")
+	w("Definition handleCall_ctx_derivation : string := %s.", coqStr(handleCallCtx(root)))
 	w("")
 	w("(* package auth *)")
 	sh := authp.funcDecl("Handler", "ServeHTTP")
@@ -694,6 +698,47 @@ func backoffConsts(p *pkg) []string {
 	ast.Inspect(fd.Body, func(n ast.Node) bool {
 		if as, ok := n.(*ast.AssignStmt); ok && len(as.Lhs) == 1 && exprString(as.Lhs[0]) == "durf" {
 			out = append(out, exprString2(as.Rhs[0]))
+		}
+		return true
+	})
+	return out
+}
+
+func lazyWriterFailedArm(p *pkg) bool {
+	fd := p.funcDecl("lazyWriter", "Write")
+	if fd == nil {
+		die("lazyWriter.Write not found")
+	}
+	arm, closer := false, false
+	ast.Inspect(fd.Body, func(n ast.Node) bool {
+		switch v := n.(type) {
+		case *ast.CommClause:
+			if es, ok := v.Comm.(*ast.ExprStmt); ok && exprString2(es.X) == "<-failed" {
+				for _, st := range v.Body {
+					if _, ok := st.(*ast.ReturnStmt); ok {
+						arm = true
+					}
+				}
+			}
+		case *ast.CallExpr:
+			if exprString2(v) == "close(failed)" {
+				closer = true
+			}
+		}
+		return true
+	})
+	return arm && closer
+}
+
+func handleCallCtx(p *pkg) string {
+	fd := p.funcDecl("wsConn", "handleCall")
+	if fd == nil {
+		die("handleCall not found")
+	}
+	out := ""
+	ast.Inspect(fd.Body, func(n ast.Node) bool {
+		if as, ok := n.(*ast.AssignStmt); ok && len(as.Lhs) == 2 && exprString(as.Lhs[0]) == "ctx" && exprString(as.Lhs[1]) == "cancel" {
+			out = exprString2(as.Rhs[0])
 		}
 		return true
 	})
